@@ -335,7 +335,7 @@ def gen_injectors(rng):
                 and rng.random() < 0.2:
             b = a if rng.random() < 0.7 else max(0, a - 2)      # empty window (from == to, or from > to)
         calls.append({"rows": rows, "container": rng.choice(["nd", "nd", "df", "ndF", "view"]), "from": a, "to": b,
-                      "shift": rng.choice([0.5, -1.0, 2.0]), "probs": rng.choice([{"0.0": 0.5}, {"0.0": 0.2, "1.0": 0.3}, {"1.0": 1.0}, {}]),
+                      "shift": rng.choice([0.5, -1.0, 2.0, 0, 0.0]), "probs": rng.choice([{"0.0": 0.5}, {"0.0": 0.2, "1.0": 0.3}, {"1.0": 1.0}, {}]),
                       "alpha": {"0.0": rng.choice([1, 2]), "1.0": 1, "2.0": rng.choice([1, 3])}, "x0": rng.choice([0.0, 1.5]),
                       "seed": np_seed(rng), "chain": rng.random() < 0.4})
     return {"injector": name, "calls": calls, "events": calls}
